@@ -178,10 +178,10 @@ def programs(ctx):
                     forms.append((f"call-{c}", call))
             for fname, body in forms:
                 for bi, big in enumerate(bigs):
-                    if quick and rng.random() > (0.12 if bi < 3 else 0.03):
+                    if quick and rng.random() > (0.35 if bi < 3 else 0.08):
                         continue
                     for where in ("before", "after", "both"):
-                        if quick and rng.random() > 0.4:
+                        if quick and rng.random() > 0.6:
                             continue
                         pre = big if where in ("before", "both") else b""
                         post = big[:-1] if where in ("after", "both") else None
